@@ -16,11 +16,13 @@ def sh(cmd, cwd, timeout=1500):
 
 
 def main():
-    ids = sys.argv[1:] or sorted(os.listdir("/tmp/seed"))
+    base = os.environ.get("SEED_BASE", "/tmp/seed")
+    variants = os.environ.get("SEED_VARIANTS", "a,b").split(",")
+    ids = sys.argv[1:] or sorted(os.listdir(base))
     head = subprocess.check_output(["git", "-C", "/repo", "rev-parse", "HEAD"]).decode().strip()
     for pid in ids:
-        for v in ("a", "b"):
-            d = "/tmp/seed/%s/%s" % (pid, v)
+        for v in variants:
+            d = "%s/%s/%s" % (base, pid, v)
             if not os.path.exists(d + "/patch.diff"):
                 continue
             dst = "/verif/seeded/%s-%s" % (pid, v)
